@@ -189,7 +189,7 @@ theorem mscStepToGeo_lowEnergy (expm1 : ℝ → ℝ) (rng mxs : XsGrid ℝ) (ema
 /-- ★ ONE statement over the case split the code makes: whatever exit `MscStepToGeo` takes,
     feeding its geometrical path and its `alpha` back into `MscStepFromGeo` gives a true path
     between that geometrical path and the original true path -/
-theorem msc_roundtrip_between (expm1 log1p : ℝ → ℝ) (rng mxs : XsGrid ℝ)
+theorem msc_roundtrip_between' (expm1 log1p : ℝ → ℝ) (rng mxs : XsGrid ℝ)
     (emass E lam range t : ℝ) (res : GeoResult ℝ)
     (h : mscStepToGeo floorIdx expm1 rng mxs emass E lam range t = some res) :
     res.step ≤ mscStepFromGeo log1p t res.alpha range lam res.step ∧
